@@ -36,7 +36,7 @@ def gen_cases(tier, seed):
     cases = core_cases()
     for b in range(256):
         cases.append(common.mk(bytes([b]), tag='one-byte'))
-    n_rand, n_pairs = (2400, 700) if tier == 'quick' else (40000, 6000)
+    n_rand, n_pairs = (2400, 700) if tier == 'quick' else (240000, 30000)
     cases += common.random_cases(rng, n_rand, heavy=(tier == 'thorough'))
     for _ in range(n_pairs):
         cases.append(common.mk(gen.lead_trail(rng, rng.randint(1, 3)), tag='lead-trail',
